@@ -75,6 +75,19 @@ func c01Run(c *Ctx) {
 	}
 	sc := GenScenario(c.R, d, scfg)
 	args := sc.Args()
+	var added []*apiOpt
+	var addedWant map[*apiOpt]string
+	if c.K%6 == 4 {
+		// options registered on the parser / a root group through the public AddOption API: single-token
+		// occurrences in front of the vector (valid from the first token on, independent of what follows)
+		ar := c.Sub("api")
+		added = addAPIOptions(ar, b, true)
+		var toks []string
+		toks, addedWant, _ = apiOccurrences(ar, added)
+		args = append(toks, args...)
+		c.Note("added", describeAPI(added))
+		c.Count("api_added_options", int64(len(added)))
+	}
 	c.Case(caseOf(sc, args, nil))
 	if sc.Exp.Unspec != "" {
 		c.Unspec(sc.Exp.Unspec)
@@ -102,6 +115,12 @@ func c01Run(c *Ctx) {
 		c.Violate(sig, "%s", msg)
 		c.Note("snapshot", o.Snap)
 		return
+	}
+	if added != nil && o.Err == nil {
+		if sig, msg := apiCompare(added, addedWant, true); sig != "" {
+			c.Violate(sig, "%s", msg)
+			return
+		}
 	}
 	cell := "unfocused"
 	shape := fmt.Sprintf("%d items", len(sc.Items))
